@@ -20,11 +20,17 @@ namespace JediModel.Refs
 open JediModel.Scopes
 
 /-- `name.parent_context` of an answer of `goto`: a `global` name reached through the
-`GlobalNameFilter` belongs to the module context, every other name (parameters too) to its scope -/
+`GlobalNameFilter` belongs to the module context; a parameter (`ParamName`) to
+`function_value.get_default_param_context()` = the context the function is defined in (for a
+function in a class body `MethodValue` answers the class context); every other name to its scope -/
 def parentCtxOfFound (p : Prog) (d : Nat) : Option Nat :=
   match p.occs[d]? with
   | none => none
-  | some o => if o.role = .globalDecl then some 0 else some o.scope
+  | some o =>
+    match o.role with
+    | .globalDecl => some 0
+    | .param => some (p.parent o.scope)
+    | _ => some o.scope
 
 /-- the `parent_context`s of the names `_find_global_variables` is called with
 (`_find_names`: the name under the cursor, created in its own scope, and its goto answers) -/
